@@ -15,7 +15,7 @@ from .. import build, tlc, run, idb, cpplib
 
 BATCH = 150
 QUICK = ["ExportDesc_sig", "ExportDesc_roles", "ExportDesc_ops", "ExportDesc_enums", "ExportDesc_redecl", "ExportDesc_props", "ExportDesc_props2",
-         "ExportDesc_bases", "ExportDesc_defbase", "ExportDesc_virt",
+         "ExportDesc_bases", "ExportDesc_defbase", "ExportDesc_virt", "ExportDesc_virt2",
          "ExportDesc_copy", "ExportDesc_nest", "ExportDesc_tops"]
 THOROUGH = [c + "_t" for c in QUICK]
 GXX = ["g++", "-std=c++17", "-fsyntax-only", "-w", "-D__published=public", "-D__begin_publish=", "-D__end_publish=", "-D__make_property(...)=", "-D__make_seq(...)=",
